@@ -685,7 +685,7 @@ func c16Corpus() []*c16Case {
 		c16Opt{Handlers: []int{3}, Paths: [][]string{{"sub", "in"}}}, c16Opt{Handlers: []int{4}, Paths: [][]string{{"sub", "in", "cm"}}})
 	kone("keys-unknown-nested", c16Opt{Ty: c16TyA, Vals: []int{1}, Paths: [][]string{{"sub", "zz"}}})
 	kone("keys-wrong-type-nested", c16Opt{Ty: c16TyB, Vals: []int{1}, Paths: [][]string{{"sub", "in", "a"}}})
-	return append(append(cs, mk("conc"), mk("seq"), derived), c16SliceCorpus()...)
+	return append(append(append(cs, mk("conc"), mk("seq"), derived), c16SliceCorpus()...), c16ResumeCorpus()...)
 }
 
 // ---------------------------------------------------------------------------------------
@@ -795,7 +795,7 @@ func c16Shrink(ctx *vh.Ctx, c *c16Case, sig string) *c16Case {
 	cur := c16Clone(c)
 	budget := 150
 	try := func(cand *c16Case) bool {
-		if budget <= 0 {
+		if budget <= 0 || !c16AsksOK(cand) {
 			return false
 		}
 		budget--
@@ -807,6 +807,21 @@ func c16Shrink(ctx *vh.Ctx, c *c16Case, sig string) *c16Case {
 	}
 	for progress := true; progress && budget > 0; {
 		progress = false
+		// an interrupt / resume pair only
+		if len(cur.Calls) > 2 {
+			for i := 1; i < len(cur.Calls); i++ {
+				if cur.Calls[i].Ask != "resume" {
+					continue
+				}
+				cand := c16Clone(cur)
+				cand.Calls = []c16Call{cand.Calls[i-1], cand.Calls[i]}
+				cand.Mode, cand.Reps = "seq", 0
+				if try(cand) {
+					progress = true
+					break
+				}
+			}
+		}
 		// one call only
 		if len(cur.Calls) > 1 {
 			for i := range cur.Calls {
@@ -964,7 +979,13 @@ func c16Shrink(ctx *vh.Ctx, c *c16Case, sig string) *c16Case {
 				if !c16TreeOK(g) || !c16FlowOK(g) {
 					continue
 				}
-				cand.Calls[k].G = g
+				// the calls of an interrupt / resume pair run the same graph: drop the node in all of them
+				old := vh.Canon(cur.Calls[k].G)
+				for j := range cand.Calls {
+					if vh.Canon(cur.Calls[j].G) == old {
+						cand.Calls[j].G = g
+					}
+				}
 				if try(cand) {
 					progress = true
 					idx--
